@@ -60,12 +60,13 @@ class Ctx:
         self.obligations.append({"rule": rid, "key": "%s|undecided:%s" % (rid, what), "ok": True, "undecided": True,
                                  "msg": "undecided: %s (idiom not recognised by this rule; no verdict, no alarm)" % what, "where": ""})
 
-    def fn(self, rid, key):
+    def fn(self, rid, key, positional=True):
+        """the anchor function `key`; positional=False for rules that do not read parameters by position"""
         f = self.prog.fn(key)
         if f is None:
             self.lost(rid, key, missing=True)
             raise AnchorLost(key)
-        if f.get("signature_changed"):
+        if f.get("signature_changed") and positional:
             # parameters were added, removed, reordered or retyped: rules written against parameter positions
             # would read the wrong values
             self.lost(rid, "%s (its signature changed: %s)" % (key, f["signature_changed"]), missing=True)
